@@ -97,63 +97,70 @@ class RemoteServer():
         try:
             while True:
                 cli, cli_addr = self.socket.accept()
-                set_linger(cli, False, 0)
-                set_keepalive(cli, True)
+                # whatever one client does - vanish at any point of the protocol, send garbage, name a
+                # context which does not exist - must not end the server or disturb other clients' workers
+                try:
+                    set_linger(cli, False, 0)
+                    set_keepalive(cli, True)
 
-                logger.info('New client: {}', cli_addr)
+                    logger.info('New client: {}', cli_addr)
 
-                logger.debug('Waiting for initial context id and worker flag')
-                header = recv_msg(cli, comment='server: header')
-                if header is None:
-                    if self.close_on_none:
-                        logger.info('"None" received')
-                        break
+                    logger.debug('Waiting for initial context id and worker flag')
+                    header = recv_msg(cli, comment='server: header')
+                    if header is None:
+                        cli.close()
+                        if self.close_on_none:
+                            logger.info('"None" received')
+                            break
 
-                    continue
+                        continue
 
-                ctx_id, is_worker = header
-                logger.debug('Received context id: {}, worker flag: {}', ctx_id, is_worker)
+                    ctx_id, is_worker = header
+                    logger.debug('Received context id: {}, worker flag: {}', ctx_id, is_worker)
 
-                if is_worker:
-                    if ctx_id is not None:
-                        logger.debug('Creating a new worker within context: {}', ctx_id)
-                        ctx = self.contexts.get(ctx_id, None)
-                        if ctx is None:
-                            logger.warning('Context {} does not exist!', ctx_id)
-                            continue
+                    if is_worker:
+                        if ctx_id is not None:
+                            logger.debug('Creating a new worker within context: {}', ctx_id)
+                            ctx = self.contexts.get(ctx_id, None)
+                            if ctx is None:
+                                logger.warning('Context {} does not exist!', ctx_id)
+                                continue
 
-                        ctx.call(cli)
-                    else:
-                        logger.debug('Waiting for the RemoteWorker object...')
-                        try:
+                            ctx.call(cli)
+                        else:
+                            logger.debug('Waiting for the RemoteWorker object...')
                             child = recv_msg(cli, { '_socket': cli, '_reset_sigterm_hnd': True }, comment='server: remote worker')
-                        except ConnectionClosedError:
-                            logger.info('Client disconnected before child was successfully created')
-                            continue
-
-                        self.children.append(child)
-                else:
-                    result = True
-                    context = recv_msg(cli, comment='server: context')
-                    if context is None:
-                        logger.info('Trying to delete context {}', ctx_id)
-                        current = self.contexts.pop(ctx_id, None)
-                        if current is None:
-                            logger.warning('Context {} does not exist', ctx_id)
-                        else:
-                            if not current.wait(timeout=5):
-                                result = current.terminate(timeout=0.1)
-                            logger.info('Context {} removed', ctx_id)
-                            del current
+                            self.children.append(child)
                     else:
-                        logger.info('Tryint to register a new context {}', ctx_id)
-                        if ctx_id in self.contexts:
-                            logger.warning('Context {} already exists', ctx_id)
-                            result = False
+                        result = True
+                        context = recv_msg(cli, comment='server: context')
+                        if context is None:
+                            logger.info('Trying to delete context {}', ctx_id)
+                            current = self.contexts.pop(ctx_id, None)
+                            if current is None:
+                                logger.warning('Context {} does not exist', ctx_id)
+                            else:
+                                if not current.wait(timeout=5):
+                                    result = current.terminate(timeout=0.1)
+                                logger.info('Context {} removed', ctx_id)
+                                del current
                         else:
-                            self.contexts[ctx_id] = context
+                            logger.info('Tryint to register a new context {}', ctx_id)
+                            if ctx_id in self.contexts:
+                                logger.warning('Context {} already exists', ctx_id)
+                                result = False
+                            else:
+                                self.contexts[ctx_id] = context
 
-                    send_msg(cli, result, comment=f'server: context operation - {result}')
+                        send_msg(cli, result, comment=f'server: context operation - {result}')
+                except (WorkerTerminatedError, KeyboardInterrupt):
+                    raise
+                except Exception:
+                    logger.exception('Error occurred while serving client {} - the client is dropped, the server carries on', cli_addr)
+                    try:
+                        cli.close()
+                    except OSError:
+                        pass
         except (WorkerTerminatedError, KeyboardInterrupt):
             pass
         except Exception:
